@@ -10,7 +10,7 @@ use crate::{error::Result, node::Node};
 use ant_networking::{GetRecordCfg, Network};
 use ant_protocol::{
     messages::{Cmd, Query, QueryResponse, Request, Response},
-    storage::RecordType,
+    storage::{RecordHeader, RecordKind, RecordType},
     NetworkAddress, PrettyPrintRecordKey,
 };
 use libp2p::{
@@ -18,6 +18,7 @@ use libp2p::{
     PeerId,
 };
 use tokio::task::spawn;
+use xor_name::XorName;
 
 impl Node {
     /// Sends _all_ record keys every interval to all peers within the REPLICATE_RANGE.
@@ -91,10 +92,28 @@ impl Node {
                 debug!(
                     "Got Replication Record {pretty_key:?} from network, validating and storing it"
                 );
+                // the record version that arrived, as the replication fetcher tracks it
+                let fetched_key = record.key.clone();
+                let fetched_type = match RecordHeader::from_record(&record).map(|h| h.kind) {
+                    Ok(RecordKind::Chunk) => Some(RecordType::Chunk),
+                    Ok(RecordKind::Scratchpad) => Some(RecordType::Scratchpad),
+                    Ok(RecordKind::Transaction) | Ok(RecordKind::Register) => Some(
+                        RecordType::NonChunk(XorName::from_content(&record.value)),
+                    ),
+                    _ => None,
+                };
                 if let Err(err) = node.store_replicated_in_record(record).await {
                     error!("During store replication fetched {pretty_key:?}, got error {err:?}");
                 } else {
                     debug!("Completed storing Replication Record {pretty_key:?} from network.");
+                    // The holder's copy arrived and was accepted, so the fetch of this version is over,
+                    // also when the copy did not change what we hold: nothing is written in that case,
+                    // hence the fetcher would not hear of it, keep the entry in flight until its deadline
+                    // and then report the holder that did answer as having failed.
+                    if let Some(record_type) = fetched_type {
+                        node.network()
+                            .notify_fetch_completed(fetched_key, record_type);
+                    }
                 }
             });
         }
